@@ -20,9 +20,14 @@ import z3
 
 from . import values as V
 from .symdb import Slot, SymDB
-from .values import BoolV, IntV, NullV, StrV, Unmodelled
+from .values import BoolV, IntV, NullV, RealV, StrV, Unmodelled
 
 BIG = 100          # "no length given" for SUBSTR: larger than any string capacity
+
+
+class Unusable(Exception):
+    """The statement is well-formed text that SQLite rejects when preparing it (e.g. the same table name twice in one
+    FROM clause without aliases: 'ambiguous column name')."""
 
 
 class SqliteModel:
@@ -34,6 +39,7 @@ class SqliteModel:
         self.side: List[Any] = []          # assumed: no overflow
         self.track_like = track_like
         self.likes: List[dict] = []        # per LIKE evaluation: ci / cs results, dynamic pattern parts (for regions)
+        self.coalesced: List[Any] = []     # null flags of x in COALESCE(x, '') (region: NULL read as empty string)
         self.used: List[str] = []          # operators / functions evaluated (evidence)
 
     # ------------------------------------------------------------------ entry points
@@ -99,7 +105,52 @@ class SqliteModel:
         return self._int(t[1])
 
     def ev_float(self, t):
-        raise Unmodelled("REAL literal")
+        from fractions import Fraction
+        try:
+            fr = Fraction(t[1])
+        except (ValueError, ZeroDivisionError):
+            raise Unmodelled(f"REAL literal {t[1]}")
+        if abs(fr.numerator) > 1000 or fr.denominator > 1000:
+            raise Unmodelled(f"REAL literal {t[1]} outside the modelled range")
+        return RealV(V.FALSE, V.bv(fr.numerator), V.bv(fr.denominator))
+
+    # ---- REAL arithmetic on exact fractions (guards: no 16-bit overflow in any product)
+    def _mul(self, null, a, b):
+        self._guard(null, z3.And(z3.BVMulNoOverflow(a, b, True), z3.BVMulNoUnderflow(a, b)))
+        return a * b
+
+    def _add(self, null, a, b):
+        self._guard(null, z3.And(z3.BVAddNoOverflow(a, b, True), z3.BVAddNoUnderflow(a, b)))
+        return a + b
+
+    def _sub(self, null, a, b):
+        self._guard(null, z3.And(z3.BVSubNoOverflow(a, b), z3.BVSubNoUnderflow(a, b, True)))
+        return a - b
+
+    def _real_bin(self, op: str, l: RealV, r: RealV):
+        null = z3.Or(l.null, r.null)
+        if op in ("+", "-"):
+            f = self._add if op == "+" else self._sub
+            num = f(null, self._mul(null, l.num, r.den), self._mul(null, r.num, l.den))
+            return RealV(null, num, self._mul(null, l.den, r.den))
+        if op == "*":
+            return RealV(null, self._mul(null, l.num, r.num), self._mul(null, l.den, r.den))
+        if op == "/":
+            null2 = z3.Or(null, r.num == 0)                     # x / 0.0 is NULL in SQLite
+            den = self._mul(null2, l.den, r.num)
+            return RealV(null2, self._mul(null2, l.num, r.den), z3.If(null2, V.bv(1), den))
+        raise Unmodelled(f"operator {op} on REAL")
+
+    def _real_cmp(self, op: str, l: RealV, r: RealV) -> BoolV:
+        null = z3.Or(l.null, r.null)
+        p = self._mul(null, l.num, r.den)
+        q = self._mul(null, r.num, l.den)
+        neg = self._mul(null, l.den, r.den) < 0
+        lt = z3.If(neg, p > q, p < q)
+        eq = p == q
+        val = {"=": eq, "!=": z3.Not(eq), "<": lt, "<=": z3.Or(lt, eq), ">": z3.And(z3.Not(lt), z3.Not(eq)),
+               ">=": z3.Not(lt)}[op]
+        return BoolV(null, val)
 
     def ev_str(self, t):
         return V.sconst(t[1])
@@ -117,7 +168,11 @@ class SqliteModel:
         return self.resolve(t[1], t[2])
 
     def ev_neg(self, t):
-        x = V.to_int(self.ev(t[1]))
+        x = self.ev(t[1])
+        if x.kind == "real":
+            self._guard(x.null, z3.BVSNegNoOverflow(x.num))
+            return RealV(x.null, -x.num, x.den)
+        x = V.to_int(x)
         self._use("unary -")
         self._guard(x.null, z3.BVSNegNoOverflow(x.val))
         return IntV(x.null, -x.val)
@@ -143,7 +198,10 @@ class SqliteModel:
             if l.kind != "str" or r.kind != "str":
                 raise Unmodelled("|| on non-text operands")
             return V.s_concat(l, r)
-        l, r = V.to_int(l), V.to_int(r)
+        if "real" in (l.kind, r.kind) and op != "%" and "str" not in (l.kind, r.kind):
+            self._use("REAL " + op)
+            return self._real_bin(op, V.to_real(l), V.to_real(r))
+        l, r = V.to_int(l), V.to_int(r)       # (% casts REAL operands to INTEGER, as SQLite does)
         null = z3.Or(l.null, r.null)
         a, b = l.val, r.val
         if op == "+":
@@ -177,6 +235,8 @@ class SqliteModel:
             if op not in ("=", "!="):
                 raise Unmodelled("ordering comparison between text and number (storage-class / affinity rules)")
             return BoolV(z3.Or(l.null, r.null), V.BoolVal(op == "!="))
+        if "real" in (l.kind, r.kind):
+            return self._real_cmp(op, V.to_real(l), V.to_real(r))
         l, r = V.to_int(l), V.to_int(r)
         a, b = l.val, r.val
         val = {"=": a == b, "!=": a != b, "<": a < b, "<=": a <= b, ">": a > b, ">=": a >= b}[op]
@@ -257,7 +317,7 @@ class SqliteModel:
         ty = t[2].upper()
         x = self.ev(t[1])
         if ty in ("INTEGER", "INT", "BIGINT", "SMALLINT"):
-            if x.kind in ("int", "bool", "null"):
+            if x.kind in ("int", "bool", "null", "real"):
                 return V.to_int(x)
             raise Unmodelled("CAST(text AS INTEGER)")
         raise Unmodelled(f"CAST AS {ty}")
@@ -373,11 +433,26 @@ class SqliteModel:
         if not a:
             raise Unmodelled("COALESCE()")
         res = a[-1]
+        if len(a) == 2 and a[1].kind == "str" and z3.is_bv_value(a[1].len) and a[1].len.as_long() == 0:
+            self.coalesced.append(a[0].null)
         for x in reversed(a[:-1]):
             res = V.v_ite(x.null, res, x) if x.kind != "null" else res
         return res
 
     fn_IFNULL = fn_COALESCE
+
+    def fn_CONCAT(self, a):
+        """SQLite >= 3.44 concat(): NULL arguments count as empty strings, the result is never NULL."""
+        if not a:
+            raise Unmodelled("CONCAT()")
+        parts = []
+        for x in a:
+            x = self._str(x)
+            parts.append(V.s_ite(x.null, V.sconst(""), StrV(V.FALSE, x.len, x.c)))
+        out = parts[0]
+        for p_ in parts[1:]:
+            out = V.s_concat(out, p_)
+        return StrV(V.FALSE, out.len, out.c)
 
     def fn_ABS(self, a):
         x = V.to_int(a[0])
@@ -412,6 +487,8 @@ class SqliteModel:
         kind, tb, alias, on = sources[i]
         tname = self._table(tb)
         q = alias or tb
+        if any(k.lower() == q.lower() for k in bindings):
+            raise Unusable(f"table name {q!r} occurs twice in one FROM clause without an alias (SQLite: ambiguous column name)")
         matches = []
         for slot in self.db.tables[tname]:
             b2 = dict(bindings)
